@@ -12,6 +12,7 @@ import (
 	"strings"
 	"time"
 
+	c4eapp "github.com/chain4energy/c4e-chain/app"
 	appparams "github.com/chain4energy/c4e-chain/app/params"
 	distrkeeper "github.com/chain4energy/c4e-chain/x/cfedistributor/keeper"
 	distrtypes "github.com/chain4energy/c4e-chain/x/cfedistributor/types"
@@ -484,6 +485,7 @@ func runSweep(ta *TestApp, rep *Report) []string {
 	})
 
 	// ---- execute ----------------------------------------------------------------------------
+	existing := []sdk.AccAddress{B, O, V, M, PO}
 	var terms []string
 	for i, cl := range calls {
 		vbRes := int64(2) // not applicable
@@ -511,6 +513,22 @@ func runSweep(ta *TestApp, rep *Report) []string {
 				}
 			}()
 			c, _ := ctx.CacheContext()
+			// C09: the x/auth records of the accounts that exist before the call (type, key, number, sequence, vesting fields)
+			before := snapshotAccounts(app, c, existing)
+			defer func() {
+				if cl.msg == nil {
+					return
+				}
+				after := snapshotAccounts(app, c, existing)
+				for k, a := range existing {
+					// split / move (handlers 5-7) may lower the original vesting of their sender, nothing else
+					if cl.h >= 5 && cl.h <= 7 && len(cl.classes) > 0 && e.addrs[cl.classes[0]] == a.String() {
+						continue
+					}
+					rep.Eval("C09.existing_account_unchanged", before[k] == after[k], 0, i,
+						fmt.Sprintf("handler %d classes %v changed the account record of %s", cl.h, cl.classes, a.String()))
+				}
+			}()
 			if err := cl.run(c); err == nil {
 				hRes = 1
 			}
@@ -549,4 +567,22 @@ func runSweep(ta *TestApp, rep *Report) []string {
 	rep.Distinct = len(calls)
 	rep.Samples = append(rep.Samples, terms[0], terms[len(terms)/2], terms[len(terms)-1])
 	return terms
+}
+
+func snapshotAccounts(app *c4eapp.App, c sdk.Context, addrs []sdk.AccAddress) []string {
+	out := make([]string, len(addrs))
+	for i, a := range addrs {
+		acc := app.AccountKeeper.GetAccount(c, a)
+		if acc == nil {
+			out[i] = "<nil>"
+			continue
+		}
+		bz, err := app.AccountKeeper.MarshalAccount(acc)
+		if err != nil {
+			out[i] = "<err " + err.Error() + ">"
+			continue
+		}
+		out[i] = fmt.Sprintf("%x", bz)
+	}
+	return out
 }
